@@ -124,7 +124,7 @@ class C14(Prop):
               'DK.Props.C01all': ['DK.C01all.leaf_hess'],
               'DK.Props.Link': ['DK.Link.accepted_hess_psd', 'DK.Link.idevice_real_hess_psd']}
   rule = ('random leaf of every shipped class (ADevice x every combinator of functions.py, half of them restricted to the convex family; '
-          'IDevice also with non-integer exponents, oracle only) x n in 1..8 (..31 thorough; storage / thermal n <= 4) x zero-width slots x '
+          'IDevice also with non-integer exponents, oracle only) x n in 1..8 plus 5 % from {12,16,24,25,31,48} (..60 thorough; storage / thermal n <= 4) x zero-width slots x '
           'scalar/vector parameters x in-bounds flow x price; non-trivial: n >= 2, a flow strictly inside a non-zero-width slot and a '
           'non-zero curve parameter')
   sizes = {'quick': 1000, 'thorough': 20000}
